@@ -81,6 +81,8 @@ def fluid_case(draw):
     c["dir"] = [draw(fl(-1.0, 1.0)) for _ in range(3)]
     c["combo"] = draw(st.sampled_from(COMBOS))
     c["T_first"] = draw(st.booleans())
+    c["vel_form"] = draw(st.sampled_from(["components", "components",
+                                          "velup3"]))
     c["Lambda"] = draw(st.sampled_from([0.0, 0.0, 0.7, -1.3]))
     c["kappa"] = draw(st.sampled_from([KAPPA, KAPPA, 1.0, 2.5]))
     return c
@@ -174,6 +176,13 @@ def fluid_inputs(case, fl_):
         d["rho"] = fl_["rho"].copy()
     d["press"] = fl_["press"].copy()
     d["w_lorentz"] = fl_["W"].copy()
+    if case.get("vel_form") == "velup3":
+        # the velocity as one array under its tensor name (as gammadown3,
+        # betaup3, Kdown3 may be)
+        d["velup3"] = np.array([fl_["vel"][i] for i in range(3)])
+        if case["omit"] and np.all(d["w_lorentz"] == 1.0):
+            del d["w_lorentz"]
+        return d
     for i, a in enumerate("xyz"):
         d["vel" + a] = fl_["vel"][i].copy()
     if case["omit"]:
@@ -407,6 +416,8 @@ def test_fluid(case, note):
                  and np.min(fl_["s"]) > 0.1))
     note.cls("combo=" + case["combo"],
              "T_first" if case["T_first"] else "Ttrace_first")
+    if case.get("vel_form") == "velup3":
+        note.cls("velocity-as-velup3")
     if case["speed"] > 0.1:
         note.cls("|v|>0.1")
     if case["speed"] > 0.8:
